@@ -22,6 +22,7 @@ import FuelVerif.Lemmas.SparseBytes
 import FuelVerif.Lemmas.SparseRefine
 import FuelVerif.Lemmas.SparseBytes32
 import FuelVerif.Props.C12Store
+import FuelVerif.Lemmas.SparseSoundRel
 namespace FuelVerif.Smt
 open Tree
 
@@ -216,8 +217,8 @@ every state that represents a structural tree `t` (root node = node of `t`, all 
 structural proof (side hashes, inclusion/exclusion, exclusion leaf) — so `proof_kind`,
 `inclusion_complete`, `exclusion_complete` transfer to the transcribed Rust algorithm. -/
 theorem generateProof_refines {σ : Type} (S : FuelVerif.SmtStore.StoreOps σ) (H : Bytes → Bytes)
-    (hok : HashOK H) (s : FuelVerif.SmtStore.SMT σ) (t : FuelVerif.SmtRefine.T)
-    (hr : Rep H hok S s t) (k : Key32) :
+    {U : FuelVerif.SmtRefine.T → Prop} (hok : HashOn H U) (s : FuelVerif.SmtStore.SMT σ)
+    (t : FuelVerif.SmtRefine.T) (hr : Rep H hok S s t) (k : Key32) :
     FuelVerif.SmtStore.generateProof H S s k.val =
       .ok (proofToBytes (generateProof bit32 (hashes32 H hok.len) k t)) :=
   generateProof_rep H hok S hr k
@@ -240,7 +241,7 @@ theorem store_generateProof_refines {σ : Type} (S : FuelVerif.SmtStore.StoreOps
         ((run bit32 maxProofLen (ops.map (hashOp H hok.len))).hash (hashes32 H hok.len)).val := by
   have hr := (store_history_rep H S hok laws st0 ops).2
   rw [maxProofLen_eq_width]
-  exact ⟨generateProof_rep H hok S hr k, rep_rootHash H S hok hr⟩
+  exact ⟨generateProof_rep H hok.toOn S hr k, rep_rootHash H S hok.toOn hr⟩
 
 /-- well-typed exclusion leaf: key and value hash are 32 bytes (the Rust type `ExclusionLeafData`) -/
 def LeafOK : FuelVerif.SmtStore.ExclusionLeaf → Prop
@@ -332,5 +333,187 @@ theorem store_history_proofs {σ : Type} (S : FuelVerif.SmtStore.StoreOps σ) (H
       simp only at hacc
       rw [this] at hacc
       exact c5 ps' _ (by injection hacc)
+
+/-! ### NON-VACUOUS form: no collision among explicitly listed hashed inputs (no `HashOK`) -/
+
+/-- a structural exclusion leaf as the transcribed `ExclusionLeaf` -/
+def exLeafStore : ExLeaf FuelVerif.SmtBytes.Key32 FuelVerif.SmtBytes.Hash32 → FuelVerif.SmtStore.ExclusionLeaf
+  | .leaf k v => .leaf k.val v.val
+  | .placeholder => .placeholder
+
+theorem mem_treesOf_last (t : FuelVerif.SmtRefine.T) :
+    ∀ hops : List (Op FuelVerif.SmtBytes.Key32 FuelVerif.SmtBytes.Hash32),
+      hops.foldl (applyOp FuelVerif.SmtBytes.bit32 FuelVerif.SmtBytes.width) t ∈ treesOf t hops
+  | [] => List.mem_cons_self
+  | op :: hops => List.mem_cons_of_mem _ (mem_treesOf_last _ hops)
+
+open FuelVerif.SmtBytes FuelVerif.SmtRefine FuelVerif.Gen.Sparse in
+/-- the inputs of the final tree are among the history's hashed inputs -/
+theorem treeInputs_final_subset (H : Bytes → Bytes) (hl : ∀ x, (H x).length = keyBytes)
+    (ops : List (Op Key32 Bytes)) :
+    ∀ y ∈ treeInputs H hl (run bit32 width (ops.map (hashOp H hl))), y ∈ hashedInputs H hl ops :=
+  fun _ hy => List.mem_flatMap.mpr ⟨_, mem_treesOf_last .empty _, hy⟩
+
+open FuelVerif.SmtBytes FuelVerif.SmtRefine FuelVerif.Gen.Sparse in
+/-- **C14, all clauses, on the transcribed Rust algorithms, NON-VACUOUS form.** For ANY `H` with 32-byte output
+(no injectivity assumed), a lawful node table, any initial storage, any history run by the transcribed
+`insert` / `delete` and any 32-byte key:
+
+* if `H` has no collision / zero-sum preimage among the inputs the HISTORY hashes (`hashedInputs H ops`), then
+  `generate_proof` succeeds, is an inclusion proof exactly when the key is in the final map, and the transcribed
+  `InclusionProof::verify` / `ExclusionProof::verify` accept the generated proof against `root()`;
+* for EVERY proof set `ps` (generated, altered or forged; entries of 32 bytes) and data `d`: if `H` has no
+  collision among the inputs the history hashes AND the inputs the VERIFIER hashes for `(k, d, ps)`
+  (`inclusionInputs`), acceptance by the transcribed `InclusionProof::verify` implies the final map holds `sum(d)`
+  at the key; likewise for `ExclusionProof::verify`, any exclusion leaf and `exclusionInputs`: acceptance implies
+  the key is absent. -/
+theorem store_history_proofs_nc {σ : Type} (S : FuelVerif.SmtStore.StoreOps σ) (H : Bytes → Bytes)
+    (hl : ∀ x, (H x).length = keyBytes) (laws : FuelVerif.SmtStore.StoreLaws S) (st0 : σ)
+    (ops : List (Op Key32 Bytes)) (k : Key32) (hnc : NoCollisionOn H (hashedInputs H hl ops)) :
+    let s := storeRun H S st0 ops
+    let m := finalMap (ops.map (hashOp H hl))
+    ∃ pf, FuelVerif.SmtStore.generateProof H S s k.val = .ok pf ∧
+      ((∃ ps, pf = .inclusion ps) ↔ (m k).isSome = true) ∧
+      (∀ d, m k = some ⟨H d, hl d⟩ →
+        ∃ ps, pf = .inclusion ps ∧ FuelVerif.SmtStore.verifyInclusion H ps s.rootHash k.val d = .ok true) ∧
+      (m k = none →
+        ∃ ps leaf, pf = .exclusion ps leaf ∧
+          FuelVerif.SmtStore.verifyExclusion H ps leaf s.rootHash k.val = .ok true) ∧
+      (∀ (ps : List Hash32) d,
+        NoCollisionOn H (hashedInputs H hl ops ++ inclusionInputs H hl k ⟨H d, hl d⟩ ps) →
+        FuelVerif.SmtStore.verifyInclusion H (ps.map Subtype.val) s.rootHash k.val d = .ok true →
+        m k = some ⟨H d, hl d⟩) ∧
+      (∀ (ps : List Hash32) (leaf : ExLeaf Key32 Hash32),
+        NoCollisionOn H (hashedInputs H hl ops ++ exclusionInputs H hl k ps leaf) →
+        FuelVerif.SmtStore.verifyExclusion H (ps.map Subtype.val) (exLeafStore leaf) s.rootHash k.val =
+          .ok true → m k = none) := by
+  intro s m
+  have hr := (store_history_rep_nc H S hl laws st0 ops hnc).2
+  have hgp := generateProof_rep H _ S hr k
+  have hroot := rep_rootHash H S _ hr
+  have hc := run_canon bit32 width keyExt_bytes (ops.map (hashOp H hl))
+  have hg := run_get bit32 width keyExt_bytes (ops.map (hashOp H hl)) k
+  have hsub := treeInputs_final_subset H hl ops
+  generalize run bit32 width (ops.map (hashOp H hl)) = t at hgp hroot hc hg hsub
+  have hw := maxProofLen_eq_width
+  refine ⟨_, hgp, ?_, ?_, ?_, ?_, ?_⟩
+  · show _ ↔ (finalMap (ops.map (hashOp H hl)) k).isSome = true
+    rw [← hg, ← proof_kind bit32 (hashes32 H hl) k t]
+    cases hsp : generateProof bit32 (hashes32 H hl) k t with
+    | inclusion sp => simp [proofToBytes, Proof.isInclusion, PP, hsp]
+    | exclusion sp leaf => cases leaf <;> simp [proofToBytes, Proof.isInclusion, PP, hsp]
+  · intro d hd
+    obtain ⟨sp, h1, h2⟩ := inclusion_complete bit32 width (hashes32 H hl) k ⟨H d, hl d⟩ t hc
+      (by rw [hg]; exact hd)
+    rw [← hw] at h2
+    refine ⟨sp.map Subtype.val, by show proofToBytes _ = _; rw [show PP H _ = hashes32 H hl from rfl, h1]; rfl, ?_⟩
+    rw [verifyInclusion_bytes H _ _ _ _ k.property, hroot]
+    have := verifyInclusion32_eq H hl maxProofLen (t.hash (hashes32 H hl)) k ⟨H d, hl d⟩ sp
+    simp only at this
+    rw [this, h2]
+  · intro hn
+    obtain ⟨sp, leaf, h1, h2⟩ := exclusion_complete bit32 width (hashes32 H hl) k t hc
+      (by rw [hg]; exact hn)
+    rw [← hw] at h2
+    cases leaf with
+    | leaf k' v' =>
+      refine ⟨sp.map Subtype.val, .leaf k'.val v'.val,
+        by show proofToBytes _ = _; rw [show PP H _ = hashes32 H hl from rfl, h1]; rfl, ?_⟩
+      rw [verifyExclusion_bytes H _ _ _ _ k.property, hroot]
+      have := verifyExclusion32_eq H hl maxProofLen (t.hash (hashes32 H hl)) k sp (.leaf k' v')
+      simp only [exLeafB] at this
+      simp only
+      rw [this, h2]
+    | placeholder =>
+      refine ⟨sp.map Subtype.val, .placeholder,
+        by show proofToBytes _ = _; rw [show PP H _ = hashes32 H hl from rfl, h1]; rfl, ?_⟩
+      rw [verifyExclusion_bytes H _ _ _ _ k.property, hroot]
+      have := verifyExclusion32_eq H hl maxProofLen (t.hash (hashes32 H hl)) k sp .placeholder
+      simp only [exLeafB] at this
+      simp only
+      rw [this, h2]
+  · intro ps d hnc2 hacc
+    rw [verifyInclusion_bytes H _ _ _ _ k.property, hroot] at hacc
+    have := verifyInclusion32_eq H hl maxProofLen (t.hash (hashes32 H hl)) k ⟨H d, hl d⟩ ps
+    simp only at this
+    rw [this] at hacc
+    show finalMap (ops.map (hashOp H hl)) k = _
+    rw [← hg]
+    refine inclusion_sound_rel H hl maxProofLen k ⟨H d, hl d⟩ t ps (NoCollisionOn.mono ?_ hnc2)
+      (by injection hacc)
+    intro y hy
+    rcases List.mem_append.mp hy with hy | hy
+    · exact List.mem_append_right _ hy
+    · exact List.mem_append_left _ (hsub y hy)
+  · intro ps leaf hnc2 hacc
+    rw [verifyExclusion_bytes H _ _ _ _ k.property, hroot] at hacc
+    have hsnd : Smt.verifyExclusion bit32 (hashes32 H hl) maxProofLen (t.hash (hashes32 H hl)) k ps leaf =
+        true := by
+      have := verifyExclusion32_eq H hl maxProofLen (t.hash (hashes32 H hl)) k ps leaf
+      cases leaf with
+      | leaf k' v' =>
+        simp only [exLeafB] at this
+        simp only [exLeafStore] at hacc
+        rw [this] at hacc
+        injection hacc
+      | placeholder =>
+        simp only [exLeafB] at this
+        simp only [exLeafStore] at hacc
+        rw [this] at hacc
+        injection hacc
+    show finalMap (ops.map (hashOp H hl)) k = _
+    rw [← hg]
+    refine exclusion_sound_rel H hl maxProofLen k t ps leaf (NoCollisionOn.mono ?_ hnc2) hsnd
+    intro y hy
+    rcases List.mem_append.mp hy with hy | hy
+    · exact List.mem_append_right _ hy
+    · exact List.mem_append_left _ (hsub y hy)
+
+open FuelVerif.SmtBytes FuelVerif.SmtRefine FuelVerif.Gen.Sparse in
+/-- **inclusion soundness on the transcribed verifier, collision-extraction form**: for ANY `H` with 32-byte
+output, any history and ANY proof set: if the transcribed `InclusionProof::verify` accepts `(k, d, ps)` against
+the root the transcribed algorithm computed, then EITHER the final map holds `sum(d)` at `k`, OR there is an
+explicit collision (two different members with equal hash, or a zero-sum preimage) in the finite list of inputs
+hashed by the history and by the verifier -/
+theorem store_inclusion_sound_or_collision {σ : Type} (S : FuelVerif.SmtStore.StoreOps σ) (H : Bytes → Bytes)
+    (hl : ∀ x, (H x).length = keyBytes) (laws : FuelVerif.SmtStore.StoreLaws S) (st0 : σ)
+    (ops : List (Op Key32 Bytes)) (k : Key32) (ps : List Hash32) (d : Bytes)
+    (hacc : FuelVerif.SmtStore.verifyInclusion H (ps.map Subtype.val) (storeRun H S st0 ops).rootHash k.val d =
+      .ok true) :
+    finalMap (ops.map (hashOp H hl)) k = some ⟨H d, hl d⟩ ∨
+      Collision H (hashedInputs H hl ops ++ inclusionInputs H hl k ⟨H d, hl d⟩ ps) :=
+  or_collision (fun hnc =>
+    (store_history_proofs_nc S H hl laws st0 ops k
+      (NoCollisionOn.mono (fun _ hy => List.mem_append_left _ hy) hnc)).choose_spec.2.2.2.2.1 ps d hnc hacc)
+
+open FuelVerif.SmtBytes FuelVerif.SmtRefine FuelVerif.Gen.Sparse in
+/-- **exclusion soundness on the transcribed verifier, collision-extraction form** -/
+theorem store_exclusion_sound_or_collision {σ : Type} (S : FuelVerif.SmtStore.StoreOps σ) (H : Bytes → Bytes)
+    (hl : ∀ x, (H x).length = keyBytes) (laws : FuelVerif.SmtStore.StoreLaws S) (st0 : σ)
+    (ops : List (Op Key32 Bytes)) (k : Key32) (ps : List Hash32) (leaf : ExLeaf Key32 Hash32)
+    (hacc : FuelVerif.SmtStore.verifyExclusion H (ps.map Subtype.val) (exLeafStore leaf)
+      (storeRun H S st0 ops).rootHash k.val = .ok true) :
+    finalMap (ops.map (hashOp H hl)) k = none ∨
+      Collision H (hashedInputs H hl ops ++ exclusionInputs H hl k ps leaf) :=
+  or_collision (fun hnc =>
+    (store_history_proofs_nc S H hl laws st0 ops k
+      (NoCollisionOn.mono (fun _ hy => List.mem_append_left _ hy) hnc)).choose_spec.2.2.2.2.2 ps leaf hnc hacc)
+
+/-! ### non-vacuity of the generic soundness theorems: a collision-free hash exists (the free term algebra) -/
+
+/-- **`CollisionFree` is satisfiable**: the free hashes of `Props/C12.lean` (`hash_free`: the hash of a tree is
+the tree itself) are collision-free, so `inclusion_sound`, `exclusion_sound` and `history_proofs` are
+instantiable as stated — for every key type, key width and history. (The byte-level idealisation `HashOK`, in
+contrast, has no instance; the byte-level results are therefore also given in the `NoCollisionOn` /
+`…_or_collision` form above.) -/
+theorem collisionFree_freeHashes {K V : Type} : CollisionFree (freeHashes (K := K) (V := V)) :=
+  ⟨fun _ _ _ _ h => (by cases h; exact ⟨rfl, rfl⟩), fun _ _ _ _ h => (by cases h; exact ⟨rfl, rfl⟩),
+   fun _ _ _ _ h => (by cases h), fun _ _ h => (by cases h), fun _ _ h => (by cases h)⟩
+
+example (ops : List (Op Nat Nat)) (k : Nat) (s : List (Tree Nat Nat)) (leaf : ExLeaf Nat Nat)
+    (h : verifyExclusion (fun k i => k.testBit (63 - i)) freeHashes 64
+      ((run (fun k i => k.testBit (63 - i)) 64 ops).hash freeHashes) k s leaf = true) :
+    get (fun k i => k.testBit (63 - i)) 0 k (run (fun k i => k.testBit (63 - i)) 64 ops) = none :=
+  exclusion_sound (fun k i => k.testBit (63 - i)) 64 freeHashes collisionFree_freeHashes k _ s leaf h
 
 end FuelVerif.Smt
